@@ -45,4 +45,28 @@ PanelOK(verts, interp, t, p, n, a, b) ==
   /\ \A k \in 1 .. Len(t) : InView(t[k], n, a, b) =>
         IF interp THEN \E i \in 1 .. Len(verts) : verts[i] = <<t[k].s[4], t[k].val[p]>>
         ELSE (\E i \in 1 .. Len(verts) : verts[i] = <<t[k].s[2], t[k].val[p]>>) /\ (\E i \in 1 .. Len(verts) : verts[i] = <<t[k].s[6], t[k].val[p]>>)
+
+\* ---- the statements of C20 evaluated on one recorded plotting call c (shared by Trace_Plots and MC_Plots) ----
+Fail(cond, name) == IF cond THEN <<>> ELSE <<name>>
+Kinds == <<"centre", "side", "rise", "decay">>
+MarkerClauses(c) ==
+  FoldLeft(LAMBDA acc, kind :
+             acc \o (IF c.markers[kind].shown
+                     THEN Fail(c.markers[kind].on_grid, "C20.marker_not_on_a_sample." \o kind)
+                       \o Fail(ToSet(c.markers[kind].samples) \subseteq Genuine(c.t, kind, c.peakC), "C20.marker_not_a_genuine_cyclepoint." \o kind)
+                       \o (IF c.op \in {"cyclepoints_df", "cyclepoints_array"}      \* completeness is stated for the cyclepoint plots only
+                           THEN Fail({ x \in Required(c.t, kind, c.peakC) : StrictlyInside(x, c.n, c.a, c.b) } \subseteq ToSet(c.markers[kind].samples), "C20.cyclepoint_inside_view_not_drawn." \o kind)
+                           ELSE <<>>)
+                       \o Fail(\A k \in 1 .. Len(c.markers[kind].samples) : c.markers[kind].y[k] = c.sig[c.markers[kind].samples[k] + 1], "C20.marker_y_is_not_the_plotted_signal." \o kind)
+                     ELSE Fail(c.markers[kind].samples = <<>>, "C20.marker_kind_switched_off_but_drawn." \o kind)),
+           <<>>, Kinds)
+PlotClauses(c) ==
+  IF c.raised # "" THEN <<"C20.raised." \o c.op>>
+  ELSE MarkerClauses(c)
+    \o (IF c.has_burst THEN Fail(HighlightOK(ToSet(c.H), c.t, c.n, c.a, c.b), "C20.burst_highlight")
+                          \o Fail(\A k \in 1 .. Len(c.H) : c.Hy[k] = c.sig[c.H[k] + 1], "C20.highlighted_trace_is_not_the_plotted_signal")
+        ELSE <<>>)
+    \o FoldLeft(LAMBDA acc, p : acc \o Fail(PanelOK(c.panels[p].verts, c.interp, c.t, c.panels[p].col, c.n, c.a, c.b), "C20.parameter_panel_values")
+                                     \o Fail(c.panels[p].thr_line = c.panels[p].thr, "C20.threshold_line"),
+                <<>>, [p \in 1 .. Len(c.panels) |-> p])
 =============================================================================
